@@ -84,6 +84,12 @@ func exploreAutomaton(base *Run, maxStates int) *Run {
 				agg.Truncated = true
 			}
 			agg.Violations = append(agg.Violations, r.Violations...)
+			for _, pr := range r.Probes {
+				if len(agg.Probes) < 40 {
+					agg.Probes = append(agg.Probes, pr)
+					agg.ProbePBytes = append(agg.ProbePBytes, r.PBytes)
+				}
+			}
 			if len(agg.DiffSamples) < 24 {
 				agg.DiffSamples = append(agg.DiffSamples, r.DiffSamples...)
 			}
@@ -200,6 +206,12 @@ func exploreCorpusLoop(base *Run, kind string) *Run {
 			agg.Truncated = true
 		}
 		agg.Violations = append(agg.Violations, r.Violations...)
+		for _, pr := range r.Probes {
+			if len(agg.Probes) < 40 {
+				agg.Probes = append(agg.Probes, pr)
+				agg.ProbeParams = append(agg.ProbeParams, r.Params)
+			}
+		}
 		if len(agg.DiffSamples) < 24 {
 			agg.DiffSamples = append(agg.DiffSamples, r.DiffSamples...)
 		}
